@@ -49,6 +49,7 @@ def stepLine (st : St) (line : String) : St × String :=
   | "C09" :: rest => (st, Driver.C09.step rest)
   | "C09G" :: rest => (st, Driver.C09G.step rest)
   | "C09S" :: rest => (st, Driver.C09G.stepSky rest)
+  | "C01A" :: rest => (st, Driver.C09G.stepOutside rest)
   | "C08" :: rest => (st, Driver.C08.step rest)
   | "C18" :: rest => let (s', o) := Driver.C18.step st.c18 rest; ({ st with c18 := s' }, o)
   | "C16" :: rest => let (s', o) := Driver.C16.step st.c16 rest; ({ st with c16 := s' }, o)
